@@ -33,6 +33,15 @@ void *__wrap_mmap(void *addr, size_t len, int prot, int flags, int fd, off_t off
 	return __real_mmap(addr, len, prot, flags, fd, off);
 }
 
+/* fopen of the setfile can be made to fail once (ld --wrap=fopen; the process is out of descriptors, EMFILE): the reload that hits it must keep nothing */
+FILE *__real_fopen(const char *, const char *);
+static __thread const char *g_fail_fopen_path;
+FILE *__wrap_fopen(const char *path, const char *mode)
+{
+	if (g_fail_fopen_path && strcmp(path, g_fail_fopen_path) == 0) { g_fail_fopen_path = NULL; STAT("ops.fileset.setfile_fopen_failed"); errno = EMFILE; return NULL; }
+	return __real_fopen(path, mode);
+}
+
 /* ------------------------------------------------------------------ process snapshots */
 typedef struct { char fds[4096]; char maps[16384]; int nthreads; } snap_t;
 
@@ -339,7 +348,15 @@ static void step(hist_t *h, rng_t *r, int thorough)
 		}
 	} else if (op < 90) {                                       /* sorter iter / write */
 		int i = pick_live(h, r, T_SORTER); if (i < 0) return;
-		obj_t *o = &h->o[i]; if (o->sorter_state != 0) return;
+		obj_t *o = &h->o[i];
+		if (o->sorter_state == 1 && !o->mc->have_fail && rndn(r, 2)) {
+			/* the sorted output is asked for once more (after an earlier iterator or sorter_write, possibly with that iterator still alive) */
+			struct mtbl_iter *it2 = mtbl_sorter_iter(o->p);
+			STAT(it2 ? "ops.sorter_iter.again.returned_iterator" : "ops.sorter_iter.again.returned_null");
+			if (it2) { int ii2 = obj_new(h, T_ITER, it2); if (ii2 < 0) mtbl_iter_destroy(&it2); else obj_dep(h, ii2, i); }
+			return;
+		}
+		if (o->sorter_state != 0) return;
 		if (o->mc->have_fail) return;                              /* O1: iterating after a chunk-level merge failure is outside C18 */
 		if (rndn(r, 3) == 0) {
 			int wi = pick_live(h, r, T_WRITER);
@@ -372,6 +389,13 @@ static void step(hist_t *h, rng_t *r, int thorough)
 			if (i < 0) { mtbl_fileset_destroy(&f); free(mc); return; }
 			h->o[i].mc = mc;
 			life("life.fileset.created_or_dupped");
+		} else if (what == 1 && rndn(r, 3) == 0) {
+			/* the setfile changed, and the reload that notices cannot open it */
+			write_setfile(h, r);
+			g_fail_fopen_path = h->setfile;
+			mtbl_fileset_reload_now(h->o[fi].p);
+			g_fail_fopen_path = NULL;
+			STAT("ops.fileset.reload_with_unopenable_setfile");
 		} else if (what == 1) { write_setfile(h, r); STAT("ops.fileset.setfile_rewritten"); }
 		else if (what == 2) { mtbl_fileset_reload(h->o[fi].p); STAT("ops.fileset.reload"); }
 		else if (what == 4 && rndn(r, 2) && !h->nontable_lines_ever) {
